@@ -120,9 +120,16 @@ def subst(b, port, seg):
 # ---------------------------------------------------------------------------------------------- RFC 3986 (for the oracle only)
 
 def split_ref(r):
-    """RFC 3986 appendix B -> (scheme, authority, path, query, fragment); None for undefined components"""
+    """RFC 3986 appendix B -> (scheme, authority, path, query, fragment); None for undefined components.
+    A text whose first path segment contains a colon that is not preceded by a valid scheme is not a URI reference at all
+    (RFC 3986 4.2): every component comes back undefined and the caller treats it as naming nothing."""
     m = re.match(rb"^(([^:/?#]+):)?(//([^/?#]*))?([^?#]*)(\?([^#]*))?(#(.*))?", r, re.S)
-    return m.group(2), m.group(4), m.group(5), m.group(7), m.group(9)
+    scheme = m.group(2)
+    if scheme is not None and not re.fullmatch(rb"[A-Za-z][A-Za-z0-9+.\-]*", scheme):
+        return None, None, None, None, None
+    if scheme is None and m.group(4) is None and b":" in re.split(rb"[/?#]", r, maxsplit=1)[0]:
+        return None, None, None, None, None
+    return scheme, m.group(4), m.group(5), m.group(7), m.group(9)
 
 
 def remove_dots(path):
@@ -159,6 +166,8 @@ def resolve(base, ref):
     """RFC 3986 5.2.2 strict -> (scheme, authority, path, query) without the fragment"""
     bs, ba, bp, bq, _ = split_ref(base)
     rs, ra, rp, rq, _ = split_ref(ref)
+    if rp is None:
+        return None, None, None, None          # not a URI reference
     if rs is not None:
         return rs, ra, remove_dots(rp), rq
     if ra is not None:
@@ -580,10 +589,12 @@ def classify_value(base, v):
                 return "C20-location-spelling-not-purged"
             return None
         # relative-path reference (or empty / query-only / fragment-only)
-        if rp == b"" and rq is None:
-            return None                                        # same document: the request URL itself
-        if has_dot_segments(v) or rf is not None or (bq is not None and b"/" in bq):
-            return "C20-location-spelling-not-purged"         # no dot-segment removal, fragment kept, rfind('/') inside the query
+        if rp is None or (rp == b"" and rq is None):
+            return None                                        # not a reference / same document: the request URL itself
+        if has_dot_segments(v) or rf is not None or (bq is not None and b"/" in bq) or rp == b"" or has_dot_segments(bp or b""):
+            # no dot-segment removal (in the value or in the request path it is merged with), fragment kept, rfind('/') inside the
+            # query, a query-only reference merged like a path
+            return "C20-location-spelling-not-purged"
         return "C20-relative-location-not-purged"
     if rs is None:
         return "C20-location-spelling-not-purged"             # network-path reference
@@ -606,26 +617,24 @@ def classify(line, impl, why):
         return "C20-relative-location-not-purged" if rel == "addrel" else None
     if line.startswith("P "):
         f = p_fields(line)
+        quiet = "C20-copy-lock-unlock-not-invalidating" if f["m"] in KNOWN_QUIET else None
         if rel == "self":
-            return "C20-copy-lock-unlock-not-invalidating" if f["m"] in ("COPY", "LOCK", "UNLOCK") else None
-        if f["m"] in ("COPY", "LOCK", "UNLOCK"):
-            return "C20-copy-lock-unlock-not-invalidating"
-        return classify_value(p_base(f), f[rel])
+            return quiet
+        return classify_value(p_base(f), f[rel]) or quiet
     if line.startswith("S "):
         steps = parse_steps(line)
         st = steps[int(m.group(3))]
         served = int(m.group(4))
-        if st["m"] in ("COPY", "LOCK", "UNLOCK"):
-            return "C20-copy-lock-unlock-not-invalidating"
+        quiet = "C20-copy-lock-unlock-not-invalidating" if st["m"] in KNOWN_QUIET else None
         # which step produced the served reply?
         obs = impl.split(" ")[1:]
         src = [steps[i] for i, o in enumerate(obs) if o == "o%d" % served]
-        if src and src[0]["k"] in ("G", "H") and src[0]["v"]:
+        if src and src[0]["k"] in ("G", "H") and src[0]["v"] and not quiet:
             return "C20-vary-variants-survive"
         if rel == "self":
-            return None
+            return quiet
         v = subst(st[rel], NOMINAL_PORT, NOMINAL_SEG)
-        return classify_value(step_url(st, NOMINAL_PORT, NOMINAL_SEG), v)
+        return classify_value(step_url(st, NOMINAL_PORT, NOMINAL_SEG), v) or quiet
     return None
 
 
